@@ -364,6 +364,10 @@ func (rt *runtime) convertCallParameter(v Value, t reflect.Type) (reflect.Value,
 				}
 				return gso.value, nil
 			}
+			if gso.value.Kind() == reflect.Ptr && !gso.value.IsNil() && gso.value.Type().Elem().AssignableTo(t) {
+				// A bridged *T for a parameter of type T: pass the struct it points to.
+				return gso.value.Elem(), nil
+			}
 		}
 
 		if gao, ok := v.object().value.(*goArrayObject); ok {
